@@ -280,6 +280,20 @@ class SymbolTable(dict):
         name_parts = self.format_lookup_name(key)  # pylint: disable=assignment-from-no-return
         super().__setitem__(name_parts, value.clone())
 
+    def __delitem__(self, key):
+        super().__delitem__(self.format_lookup_name(key))
+
+    _no_default = object()
+
+    def pop(self, key, default=_no_default):
+        """
+        Remove a symbol's entry and return it (or :data:`default` if not found)
+        """
+        name = self.format_lookup_name(key)  # pylint: disable=assignment-from-no-return
+        if default is self._no_default:
+            return super().pop(name)
+        return super().pop(name, default)
+
     def __hash__(self):
         return hash(tuple(self.keys()))
 
